@@ -331,6 +331,12 @@ def m_iter_count(M, a, c, fr):
     return BV64(len(drain(M, to_iter(M, a[0]))))
 
 
+def m_iter_fold(M, a, c, fr):
+    acc = a[1]
+    for x in drain(M, to_iter(M, a[0])): acc = M.call_value(a[2], [acc, x])
+    return acc
+
+
 def m_iter_for_each(M, a, c, fr):
     for x in drain(M, to_iter(M, a[0])): M.call_value(a[1], [x])
     return []
@@ -854,6 +860,41 @@ def m_map_iter(M, a, c, fr):
     return IntoIt(out)
 
 
+# ----------------------------------------------------------------------------- string operations on opaque strings: uninterpreted functions of their arguments
+def _argsig(M, a):
+    out = []
+    for x in a:
+        x = deref(M, x)
+        if isinstance(x, Tok): out.append(x.name)
+        elif isinstance(x, ValSlice) and all(z3.is_bv_value(b) for b in x.elems): out.append(repr(bytes(b.as_long() for b in x.elems)))
+        elif z3.is_bv_value(x): out.append(str(x.as_long()))
+        else: out.append(str(x))
+    return ','.join(out)
+
+
+def m_str_opaque(M, a, c, fr):
+    recv = deref(M, a[0])
+    meth = re.search(r'<impl str>::(\w+)|String::(\w+)', c)
+    meth = meth.group(1) or meth.group(2)
+    if not isinstance(recv, Tok): raise Inconclusive('unmodelled string operation on a concrete string: ' + c)
+    sig = '%s(%s)' % (meth, _argsig(M, a))
+    if meth in ('contains', 'starts_with', 'ends_with', 'is_empty', 'is_char_boundary', 'eq_ignore_ascii_case'): return z3.Bool(sig)
+    if meth in ('replace', 'replacen', 'trim', 'trim_start', 'trim_end', 'to_lowercase', 'to_uppercase', 'to_string', 'to_owned', 'trim_matches', 'repeat', 'to_ascii_lowercase'): return Tok(sig)
+    if meth in ('len',): return z3.BitVec(sig, 64)
+    raise Inconclusive('unmodelled string operation on an opaque string: ' + c)
+
+
+def m_iter_size_hint(M, a, c, fr):
+    it = deref(M, a[0])
+    if isinstance(it, LazyIntoIt) and it.inner is None: return [it.vec.len, opt_some(it.vec.len)]
+    if isinstance(it, IntoIt): n = BV64(len(it.elems) - it.i); return [n, opt_some(n)]
+    if isinstance(it, SeqIt): n = M.seq_len(it._seq(M)) - BV64(it.i); return [n, opt_some(n)]
+    return [BV64(0), opt_none()]
+
+
+def m_vec_with_capacity(M, a, c, fr): return VecV(BV64(0), [])
+
+
 def m_write_fmt(M, a, c, fr):
     M.aux.setdefault('fmt_log', []).append(a[1])
     return res_ok([])
@@ -877,7 +918,7 @@ MODELS = [
     (r'<.* as Iterator>::find::<.*>', m_iter_find),
     (r'<.* as Iterator>::last', m_iter_last),
     (r'<.* as Iterator>::count', m_iter_count),
-    (r'<.* as Iterator>::for_each::<.*>', m_iter_for_each),
+    (r'<.* as Iterator>::for_each::<.*>', m_iter_for_each), (r'<.* as Iterator>::fold::<.*>', m_iter_fold),
     (r'(std::iter::|core::iter::)?once::<.*>', m_once),
     # Vec / slices
     (r'Vec::<.*>::new', m_vec_new), (r'<Vec<.*> as Default>::default', m_vec_new),
@@ -922,6 +963,7 @@ MODELS = [
     (r'core::num::<impl u8>::is_ascii_lowercase', u8_pred(97, 122)), (r'core::num::<impl u8>::is_ascii_uppercase', u8_pred(65, 90)),
     (r'core::num::<impl u8>::is_ascii_digit', u8_pred(48, 57)),
     (r'core::num::<impl u8>::is_ascii_alphabetic', m_u8_alpha), (r'core::num::<impl u8>::is_ascii_alphanumeric', m_u8_alnum),
+    (r'<String as Deref(Mut)?>::deref(_mut)?', m_ident), (r'String::as_str', m_ident), (r'<String as AsRef<str>>::as_ref', m_ident), (r'<String as Borrow<str>>::borrow', m_ident),
     (r'<&str as Into<String>>::into', m_str_to_owned), (r'<String as From<&str>>::from', m_str_to_owned),
     (r'(alloc|std)::string::<impl ToString for str>::to_string|<str as ToString>::to_string|<str as ToOwned>::to_owned', m_str_to_owned),
     # TypeId
@@ -930,6 +972,8 @@ MODELS = [
     (r'<&(mut )?(?!str\b)[\w:]+(<.*>)? as PartialEq(<.*>)?>::(eq|ne)', m_ref_eq),
     (r'<Vec<.*> as PartialEq>::(eq|ne)', lambda M, a, c, fr: (M.val_eq(deref(M, a[0]), deref(M, a[1])) if c.endswith('eq') else z3.Not(M.val_eq(deref(M, a[0]), deref(M, a[1]))))),
     # misc
+    (r'<.* as Iterator>::size_hint', m_iter_size_hint), (r'Vec::<.*>::with_capacity', m_vec_with_capacity), (r'Vec::<.*>::reserve', lambda M, a, c, fr: []),
+    (r'(core|alloc|std)::str::<impl str>::\w+(::<.*>)?', m_str_opaque), (r'String::(replace|trim\w*|contains|starts_with|ends_with|len|is_empty)(::<.*>)?', m_str_opaque),
     (r'<[A-Z]\w? as PartialEq>::(eq|ne)', lambda M, a, c, fr: (M.val_eq(deref(M, a[0]), deref(M, a[1])) if c.endswith('eq') else z3.Not(M.val_eq(deref(M, a[0]), deref(M, a[1]))))),
     (r'<.+ as Into<.+>>::into', m_into_via_from),
     (r'<.* as Clone>::clone', m_clone),
